@@ -43,3 +43,15 @@ Print Assumptions C02_survivors_hold_the_write.
 Print Assumptions C02_nobody_joins_during_a_write.
 Print Assumptions C02_no_majority_is_reported_failed.
 Print Assumptions C02_failed_replicas_detached.
+
+(** the executable trace oracle that the correspondence run evaluates on the real controller's
+    observations accepts every trace of the model (single-request histories; [n] observed replicas,
+    every address that is added or started is below [n]) *)
+From Jiva Require Import Ctl.Corr Ctl.Oracles Ctl.OracleProofs2.
+
+Theorem C02_oracle_accepts_model_traces : forall es rf0 n w0, (1 <= rf0)%nat -> forallb ev_wf es = true ->
+  forallb (ev_addrs_lt n) es = true ->
+  walk (lift (c02_step rf0) nopair) 0 (obs0 rf0 n w0) (map One es) (trace n (init rf0 w0) (map One es)) = None.
+Proof. exact c02_oracle_model. Qed.
+
+Print Assumptions C02_oracle_accepts_model_traces.
